@@ -101,7 +101,8 @@ EXPECTED_P2_OPENMP = [
     "int64_t sqrtx = isqrt ( x ) ;",
     "if ( y >= sqrtx ) return 0 ;",
     "T b = pi_noprint ( sqrtx , threads ) ;",
-    "T sum = ( a - 2 ) * ( a + 1 ) / 2 - ( b - 2 ) * ( b + 1 ) / 2 ;",
+    "T pi_y = a ;",
+    "T sum = ( pi_y - 2 ) * ( pi_y + 1 ) / 2 - ( b - 2 ) * ( b + 1 ) / 2 ;",
     "static_assert ( pstd :: is_signed < T > :: value , \"T must be signed integer type\" ) ;",
     "int64_t xy = ( int64_t ) ( x / max ( y , 1 ) ) ;",
     "LoadBalancerP2 loadBalancer ( x , xy , threads , is_print ) ;",
